@@ -109,6 +109,20 @@ def emitNote (s : Song) (ev : Event) (slur : Int) : Song :=
     s.setT { t with events := t.events ++ r.1, tieNotes := [], bendRange := r.2 }
   else s.setT { t with events := t.events ++ [ev] }
 
+/-- the Random settings of `exec_note`, in the order of the code: octave (on the key), velocity, timing, gate -/
+def noteDraws (s : Song) (key vel tim qlen : Int) : (Int × Int × Int × Int) × Song :=
+  let t := s.t
+  let ro := if t.oRand > 0 then (let r := Reserve.calcRand s.seed 0 t.oRand; (key + r.1 * 12, { s with seed := r.2 })) else (key, s)
+  let rv := drawIf t.vRand vel ro.2
+  let rt := drawIf t.tRand tim rv.2
+  let rq := drawIf t.qRand qlen rt.2
+  ((ro.1, rv.1, rt.1, rq.1), rq.2)
+
+/-- the pointer advances by the full length; a pending octave-once is taken back -/
+def advance (s : Song) (tp : Int) : Song :=
+  let s2 := s.setT { s.t with timepos := tp }
+  if s2.octaveOnce ≠ 0 then { (s2.setT { s2.t with octave := s2.t.octave - s2.octaveOnce }) with octaveOnce := 0 } else s2
+
 /-- `exec_note` -/
 def execNote (s : Song) (tk : Tok) : Song :=
   let d := tk.data
@@ -123,18 +137,10 @@ def execNote (s : Song) (tk : Tok) : Song :=
   let key1 := if s.useKeyShift then
       key0 + (if dataI d 1 = 0 then s.keyFlag.getD (Int.toNat no0 % 12) 0 else 0) + s.keyShift + t.trackKey
     else key0
-  -- Random settings, in the order of the code: octave, velocity, timing, gate
-  let ro := if t.oRand > 0 then (let r := Reserve.calcRand s.seed 0 t.oRand; (key1 + r.1 * 12, { s with seed := r.2 })) else (key1, s)
-  let rv := drawIf t.vRand vel ro.2
-  let rt := drawIf t.tRand tim rv.2
-  let rq := drawIf t.qRand qlen rt.2
-  let s1 := rq.2
+  let r := noteDraws s key1 vel tim qlen
   let notelen := Len.calcLength s.tb t.length (dataS d 2)
-  let ev := noteEvent (t.timepos + rt.1) t.channel ro.1 (gate notelen rq.1) (clampI 0 rv.1 127)
-  let t1 := { s1.t with timepos := t.timepos + notelen }
-  let s2 := s1.setT t1
-  let s3 := if s2.octaveOnce ≠ 0 then { (s2.setT { t1 with octave := t1.octave - s2.octaveOnce }) with octaveOnce := 0 } else s2
-  emitNote s3 ev (dataI d 7)
+  let ev := noteEvent (t.timepos + r.1.2.2.1) t.channel r.1.1 (gate notelen r.1.2.2.2) (clampI 0 r.1.2.1 127)
+  emitNote (advance r.2 (t.timepos + notelen)) ev (dataI d 7)
 
 /-- `exec_note_n` (no chord / tie handling there) -/
 def execNoteN (s : Song) (tk : Tok) : Song :=
